@@ -50,6 +50,24 @@ def deltaEq (threshold a b : Nat) : Bool :=
   let diff := if a < b then b - a else a - b
   decide (diff < threshold)
 
+/-- `DeltaEqChecker::eq` on any ordered type with subtraction (the documented use is
+`DeltaEqChecker<SingleObjective>` over the best objective value). -/
+def deltaEqG {V : Type} [LT V] [DecidableLT V] [Sub V] (threshold a b : V) : Bool :=
+  let diff := if a < b then b - a else a - b
+  decide (diff < threshold)
+
+/-- `DeltaEqChecker<SingleObjective>::eq` on exact double values, as far as the *class* of the
+difference decides it (C09: `a - b` is the derived operator, `<` is `partial_cmp == Some(Less)`):
+a NaN or +inf difference is never `< threshold`, a −inf difference is below every legal threshold;
+for a finite difference the rounded value would be needed (`none`). -/
+def deltaEqObj (threshold a b : Objective.F64) : Option Bool :=
+  let diff := if Objective.objLt a b then Objective.subC b a else Objective.subC a b
+  match diff with
+  | .nan => some false
+  | .pinf => some false
+  | .ninf => some (Objective.legal threshold)
+  | .fin => none
+
 /-- One evaluation: `changed = match previous { Some(p) => !checker.eq(current, p), None => true };
 if changed { *previous = Some(current) }`. Returns the verdict and the new `Previous`. -/
 def changeOfStep {V : Type} (eqv : V → V → Bool) (prev : Option V) (cur : V) : Bool × Option V :=
